@@ -152,7 +152,8 @@ def make_test(i, outcome, kind, stop_hook=None, tid=None):
 
 
 def x_hist(ctx, case):
-    b = build(case["stack"], case["failfast"] == "leaf")
+    # ("leaf_none": the underlying results were made with failfast=None, as testtools.run makes its own by default)
+    b = build(case["stack"], True if case["failfast"] == "leaf" else (None if case.get("leaf_none") else False))
     top = b.top
     is_stream = case["stack"] == "E2S"
     if case["failfast"] == "top":
@@ -290,6 +291,12 @@ def x_stream_replay(ctx, case):
     stream = io.StringIO()
     leaf = testtools.TextTestResult(stream)
     top = testtools.ExtendedToStreamDecorator(testtools.StreamToExtendedDecorator(leaf))
+    if case.get("abandoned_first"):
+        # an earlier run through the same objects was abandoned mid-test (no outcome, no stopTestRun): what counts
+        # is what was reported "since the last startTestRun"
+        top.startTestRun()
+        testtools.PlaceHolder("finished-in-the-abandoned-run").run(top)
+        top.startTest(testtools.PlaceHolder("abandoned"))
     top.startTestRun()
     outcomes, ids = case["tests"], case["ids"]
     for i, (o, tid) in enumerate(zip(outcomes, ids)):
@@ -515,6 +522,8 @@ def run(ctx):
             ff = "leaf"
         hist = {"stack": stack, "failfast": ff,
                 "segments": [random_segment(rng) for _ in range(rng.randint(1, 3))]}
+        if ff != "leaf" and rng.random() < 0.25:
+            hist["leaf_none"] = True
         if ff != "leaf" and rng.random() < 0.2:
             hist["ff_seq"] = [rng.random() < 0.5 for _ in range(rng.randint(1, 4))]
         ctx.execute("hist", hist)
@@ -533,6 +542,8 @@ def run(ctx):
             for hung in (False, True):
                 ids = [("" if k == empty_at else None) for k in range(len(tests))]
                 ctx.execute("stream_replay", {"tests": tests, "ids": ids, "hung": hung})
+                if empty_at is None:
+                    ctx.execute("stream_replay", {"tests": tests, "ids": ids, "hung": hung, "abandoned_first": True})
     for tests in (["success"], ["success", "failure", "success"], ["skip", "success"]):
         for k in range(len(tests)):
             ctx.execute("run", {"tests": tests, "interrupt_at": k})
